@@ -67,6 +67,12 @@ const PLAN: &[(&str, &str, &[&str])] = &[
     ("GenTrav", "From IT Require Import SrcSupport.\nFrom IT.gen Require Import GenStamp GenAlloc.", &["NodeEdge::next_traverse", "NodeEdge::prev_traverse", "IterArm::next", "DeArm::next", "DeArm::next_back", "Traverse::next_of_next", "Traverse::next", "ReverseTraverse::next_of_next", "ReverseTraverse::next",
         "Ancestors::new", "Ancestors::nextf", "Predecessors::new", "Predecessors::nextf", "PrecedingSiblings::new", "PrecedingSiblings::nextf", "PrecedingSiblings::backf",
         "FollowingSiblings::new", "FollowingSiblings::nextf", "FollowingSiblings::backf", "Children::new", "Children::nextf", "Children::backf", "ReverseChildren::new", "ReverseChildren::nextf"]),
+    (
+        "GenPrint",
+        "From IT Require Import SrcSupport.",
+        &["IndentedBlockState::as_str", "IndentedBlockState::as_str_leading", "IndentedBlockState::as_str_trailing_spaces", "IndentedBlockState::is_all_whitespace",
+          "IndentWriter::open_item", "IndentWriter::close_item", "IndentWriter::write_indent_partial", "IndentWriter::complete_partial_indent", "IndentWriter::write_str"],
+    ),
 ];
 
 struct FnSrc {
@@ -118,7 +124,7 @@ fn collect(file: &File, out: &mut HashMap<String, FnSrc>) {
                 }
                 if let Some((_, tp, _)) = &im.trait_ {
                     let tn = path_str(tp);
-                    if tn != "Iterator" && !tn.ends_with("DoubleEndedIterator") {
+                    if tn != "Iterator" && !tn.ends_with("DoubleEndedIterator") && tn != "fmt::Write" {
                         continue;
                     }
                 }
@@ -252,6 +258,8 @@ fn impl_ty_to_ty(n: &str) -> Ty {
         "Node" => Ty::Node,
         "SiblingsRange" | "DetachedSiblingsRange" => Ty::Range,
         "NodeEdge" => Ty::Edge,
+        "IndentedBlockState" => Ty::IState,
+        "IndentWriter" => Ty::Writer,
         "IterArm" => Ty::IterSt,
         "DeArm" => Ty::DeSt,
         "Traverse" | "ReverseTraverse" => Ty::TravSt,
@@ -308,10 +316,10 @@ fn mk_sig(key: &str, f: &FnSrc) -> Sig {
             }
         }
     };
-    Sig { coq: format!("g_{}", key.replace("::", "_")), self_kind, params, ret }
+    Sig { coq: format!("g_{}", key.replace("::", "_")), self_kind, params, ret, pure_fn: false }
 }
 
-fn translate(key: &str, f: &FnSrc, sigs: &HashMap<String, Sig>) -> R<String> {
+fn translate(key: &str, f: &FnSrc, sigs: &HashMap<String, Sig>) -> R<(String, bool)> {
     let mut cx = Cx::new(sigs.clone(), key);
     let sig = cx.cur.clone();
     let mut binders = vec!["(dbg : bool)".to_string()];
@@ -350,8 +358,16 @@ fn translate(key: &str, f: &FnSrc, sigs: &HashMap<String, Sig>) -> R<String> {
         out += l;
         out += "\n";
     }
+    // a function of the pretty printer without effects is emitted as a plain function
+    if key.starts_with("Indent") && cx.lifted.is_empty() {
+        if let Some(t) = code.as_pure() {
+            let b: Vec<String> = binders.iter().filter(|x| *x != "(dbg : bool)").cloned().collect();
+            out += &format!("Definition {} {} : {} :=\n  {}.\n", sig.coq, b.join(" "), sig.coq_ret().coq(), t);
+            return Ok((out, true));
+        }
+    }
     out += &format!("Definition {} {} : M {} :=\n{}.\n", sig.coq, binders.join(" "), sig.coq_ret().coq(), code.print(2));
-    Ok(out)
+    Ok((out, false))
 }
 
 /// the Index / IndexMut impls are read syntactically: arena[id] must mean self.nodes[id.index0()]
@@ -391,7 +407,7 @@ fn main() {
     let (src, outdir) = (&args[1], &args[2]);
     let mut fns: HashMap<String, FnSrc> = HashMap::new();
     let mut index_ok: R<()> = Err("arena.rs not read".into());
-    for name in ["id.rs", "relations.rs", "siblings_range.rs", "arena.rs", "node.rs", "traverse.rs"] {
+    for name in ["id.rs", "relations.rs", "siblings_range.rs", "arena.rs", "node.rs", "traverse.rs", "debug_pretty_print.rs"] {
         let path = format!("{}/{}", src, name);
         let text = std::fs::read_to_string(&path).unwrap_or_else(|e| panic!("{}: {}", path, e));
         match syn::parse_file(&text) {
@@ -456,7 +472,12 @@ fn main() {
                 }
             };
             match r {
-                Ok(t) => {
+                Ok((t, pure_fn)) => {
+                    if pure_fn {
+                        if let Some(sg) = sigs.get_mut(*k) {
+                            sg.pure_fn = true;
+                        }
+                    }
                     out += &format!("(* {} *)\n{}\n", k, t);
                 }
                 Err(e) => {
